@@ -428,6 +428,9 @@ func (self *Compiler) compileExpr(node ast.AnalyzedExpression) {
 			}
 		}
 
+		// No literal matched: the control value is not needed any longer (the arms drop it themselves).
+		self.insert(newPrimitiveInstruction(Opcode_Drop), node.Range)
+
 		default_branch := self.mangleLabel("match_default")
 		if node.DefaultArmAction != nil {
 			self.insert(newOneStringInstruction(Opcode_Jump, default_branch), node.Range)
